@@ -377,6 +377,10 @@ pub fn drive(tier: &str) -> i32 {
         format!("block skeletons: every block construct x optional parts x empty/comment/statement bodies, nesting depth {}", if quick { 1 } else { 2 }),
         vcore::slots::block_skeletons(if quick { 1 } else { 2 }).into_iter().map(|b| format!("X = 0\n{}PRINT \"end\"\n", b)).collect(),
     ));
+    groups.push((
+        "statement templates inside 8 containers (SUB / FUNCTION / STATIC SUB bodies, single-line IF, IF in FOR, CASE, ELSE in WHILE, SUB with shared declarations)".into(),
+        vcore::slots::instantiate_in_containers(if quick { &[] } else { &[0, 3] }),
+    ));
     groups.push(("harvested texts as they are".into(), corpus.iter().map(|(_, t)| t.clone()).collect()));
 
     // seeds for edits: accepted programs; quick = first program per source file + fixtures.
